@@ -198,6 +198,16 @@ def _poly(node, ctx):
             return b + Poly.atom(g) * (a - b)
     if isinstance(node, ast.Name) and node.id.startswith("__poly__"):
         return _POLY_STASH[node.id]
+    # <codec>.nBytes(n) = n * itemsize  (n symbolic)
+    if isinstance(node, ast.Call) and isinstance(node.func, ast.Attribute) and node.func.attr == "nBytes" and isinstance(node.func.value, ast.Name) and len(node.args) <= 1:
+        one = ctx.const_int(ast.Call(func=node.func, args=[], keywords=[]))
+        if one is not None:
+            n = node.args[0] if node.args else next((k.value for k in node.keywords if k.arg == "n"), None)
+            if n is None:
+                return Poly.const(one)
+            pn = _poly(n, ctx)
+            if pn is not None:
+                return pn * Poly.const(one)
     return Poly.atom(_atom(node, ctx))
 
 
